@@ -731,4 +731,69 @@ def i_descriptors(x, log):
         r.append("ve")
     return r
 
+
+def i_getattr_keyerror(x, log):
+    class Record:
+        def __init__(self, data):
+            self._data = data
+
+        def __getattr__(self, name):
+            return self._data[name]
+
+    class Tag:
+        def __init__(self, title):
+            self.title = title
+
+    def label(item, fallback):
+        try:
+            return item.title
+        except KeyError:
+            log.append("ke")
+            return fallback
+
+    out = []
+    for item in (Record({}), Tag("news"), Record({"title": x})):
+        out.append(label(item, "untitled"))
+        if len(out) > x % 4:
+            break
+    return out
+
+
+def i_raising_protocols(x, log):
+    class Odd:
+        def __bool__(self):
+            raise ValueError("bool")
+
+        def __len__(self):
+            raise TypeError("len")
+
+        def __contains__(self, item):
+            raise KeyError(item)
+
+        def __iter__(self):
+            raise OSError("iter")
+
+        def __hash__(self):
+            raise RuntimeError("hash")
+
+        @property
+        def prop(self):
+            raise LookupError("prop")
+
+    o = Odd()
+    tests = [lambda: 1 if o else 0, lambda: 3 in o, lambda: [v for v in o], lambda: o in {1: 2},
+             lambda: o.prop, lambda: o == o, lambda: o < 3, lambda: o.missing, lambda: o is None]
+    out = []
+    for k, t in enumerate(tests):
+        if (k + x) % 3 == 0:
+            continue
+        try:
+            out.append(t())
+        except (ValueError, TypeError, LookupError, OSError, RuntimeError, AttributeError) as ex:
+            out.append(type(ex).__name__)
+        if out[-1] is True:
+            log.append(k)
+    return out
+
+
 FUNCS = [n for n in sorted(globals()) if n.startswith("i_")]
